@@ -20,7 +20,7 @@ func init() {
 var profC05 = Profile{
 	MaxBars: 7, MaxSteps: 40, Refresh: []string{"manual", "manual", "manual", "autoinj"}, QLens: []int{-1, -1, -3, -4, 128, 0, 1, -2},
 	Pop: 30, Queue: 25, Prio: true, PrioOnFinished: true, Ext: 20, Text: 1, Rm: 25, NoPop: 20, AbortW: 2, TicksW: 8, Notifier: 100,
-	Fillers: []string{"bar", "tag", "nop", "spinner", "spinnerv"}, LateAdd: true, Cancel: 15, Pty: 20, PtyRowsMax: 8, Faults: 12,
+	Fillers: []string{"bar", "tag", "nop", "spinner", "spinnerv"}, LateAdd: true, Cancel: 15, Pty: 20, PtyRowsMax: 8, Faults: 12, PrioMidRender: 15, AddTick: 10,
 }
 
 // profC05Conc: concurrent adders and updaters while render cycles run; judged by
@@ -75,6 +75,16 @@ func traceProblem(sc *engine.Scenario, tr *engine.Trace, r *Result, hangIsViolat
 }
 
 // dumpHang keeps the scenario of a hung run in $VERIF_HANGDUMP (debugging aid).
+func init() {
+	engine.InconclusiveHook = func(sc *engine.Scenario, why string) {
+		vstat.Note("inconclusive run: " + why)
+		if d := os.Getenv("VERIF_HANGDUMP"); d != "" {
+			b, _ := json.Marshal(map[string]interface{}{"case": sc, "inconclusive": why})
+			_ = os.WriteFile(fmt.Sprintf("%s/inconclusive-%x.json", d, vstat.HashBytes(b)), b, 0o644)
+		}
+	}
+}
+
 func dumpHang(sc *engine.Scenario, tr *engine.Trace) {
 	if d := os.Getenv("VERIF_HANGDUMP"); d != "" && tr.Hang != nil {
 		b, _ := json.Marshal(map[string]interface{}{"case": sc, "hang": tr.Hang})
@@ -100,7 +110,7 @@ func runC05(ci interface{}) Result {
 	}
 	frames := tr.Frames()
 	sim := engine.Simulate(sc)
-	r.Classes = append(r.Classes, "refresh:"+sc.Cfg.Refresh)
+	r.Classes = append(append(r.Classes, "refresh:"+sc.Cfg.Refresh), featureClasses(sc)...)
 	if sc.Cfg.Pop {
 		r.Classes = append(r.Classes, "pop")
 	}
